@@ -13,7 +13,6 @@ import Manticore.Lemmas.C13Guid
 import Manticore.Lemmas.C13UuidText
 import Manticore.Lemmas.C13GuidSpec
 import Manticore.Lemmas.C13Nibbles
-import Manticore.Props.C13.Consts
 namespace Manticore.C13
 open Manticore
 
